@@ -1,2 +1,434 @@
 //! World extension: treasury flows (instruction builders over the real program).
+use super::exchange::load;
 use super::*;
+use anchor_spl::associated_token;
+use gmsol_store::states::Seed;
+use gmsol_treasury::{
+    accounts as ta, instruction as ti,
+    states::{Config, GtBank, TreasuryVaultConfig},
+    ID as TREASURY_PID,
+};
+
+pub const TREASURY_ROLES: [&str; 4] = [
+    gmsol_treasury::roles::TREASURY_OWNER,
+    gmsol_treasury::roles::TREASURY_ADMIN,
+    gmsol_treasury::roles::TREASURY_KEEPER,
+    gmsol_treasury::roles::TREASURY_WITHDRAWER,
+];
+
+/// Addresses of a bootstrapped treasury.
+#[derive(Clone, Debug)]
+pub struct Treasury {
+    pub config: Pubkey,
+    pub receiver: Pubkey,
+    pub vault_config: Pubkey,
+    /// Oracle account whose authority is the treasury config PDA.
+    pub oracle: Pubkey,
+}
+
+/// Treasury-program instruction.
+pub fn tix(accounts: impl ToAccountMetas, data: impl InstructionData) -> Instruction {
+    ix(TREASURY_PID, accounts, data)
+}
+
+impl World {
+    pub fn treasury_config_pda(&self) -> Pubkey {
+        Pubkey::find_program_address(&[Config::SEED, self.store.as_ref()], &TREASURY_PID).0
+    }
+
+    pub fn treasury_receiver_pda(&self, config: &Pubkey) -> Pubkey {
+        Pubkey::find_program_address(&[gmsol_treasury::constants::RECEIVER_SEED, config.as_ref()], &TREASURY_PID).0
+    }
+
+    pub fn treasury_vault_config_pda(&self, config: &Pubkey, index: u16) -> Pubkey {
+        Pubkey::find_program_address(&[TreasuryVaultConfig::SEED, config.as_ref(), &index.to_le_bytes()], &TREASURY_PID).0
+    }
+
+    pub fn gt_bank_pda(&self, treasury_vault_config: &Pubkey, gt_exchange_vault: &Pubkey) -> Pubkey {
+        Pubkey::find_program_address(&[GtBank::SEED, treasury_vault_config.as_ref(), gt_exchange_vault.as_ref()], &TREASURY_PID).0
+    }
+
+    /// Enable the treasury roles and grant them to the keeper; make the treasury receiver PDA the
+    /// store's receiver; `initialize_config`; grant the config PDA the store roles it needs as a CPI
+    /// authority; `initialize_treasury_vault_config(index)` + `set_treasury_vault_config`; an oracle
+    /// account whose authority is the config PDA. Failures are harness errors (panic).
+    pub fn bootstrap_treasury(&mut self, index: u16) -> Treasury {
+        let (admin, keeper, store) = (self.admin, self.keeper, self.store);
+        for role in TREASURY_ROLES {
+            self.must(
+                "enable_role(treasury)",
+                &[six(sa::EnableRole { authority: admin, store }, si::EnableRole { role: role.to_string() })],
+                &[admin],
+            );
+            self.grant(&keeper, role).expect("grant treasury role");
+        }
+        let config = self.treasury_config_pda();
+        let receiver = self.treasury_receiver_pda(&config);
+        let vault_config = self.treasury_vault_config_pda(&config, index);
+        self.svm.airdrop(&receiver, LAMPORTS);
+        // The current receiver (the store authority by default) hands over to the treasury receiver PDA.
+        let current_receiver = load::<gmsol_store::states::Store>(&self.svm, &store).expect("store").receiver();
+        self.must(
+            "transfer_receiver",
+            &[six(
+                sa::TransferReceiver { authority: current_receiver, store, next_receiver: receiver },
+                si::TransferReceiver {},
+            )],
+            &[current_receiver],
+        );
+        self.must(
+            "treasury initialize_config",
+            &[tix(
+                ta::InitializeConfig {
+                    payer: keeper,
+                    store,
+                    config,
+                    receiver,
+                    store_program: STORE_PID,
+                    system_program: system_program::ID,
+                },
+                ti::InitializeConfig {},
+            )],
+            &[keeper],
+        );
+        for role in [RoleKey::GT_CONTROLLER, RoleKey::ORACLE_CONTROLLER] {
+            self.grant(&config, role).expect("grant config role");
+        }
+        self.must(
+            "initialize_treasury_vault_config",
+            &[tix(
+                ta::InitializeTreasuryVaultConfig {
+                    authority: keeper,
+                    store,
+                    config,
+                    treasury_vault_config: vault_config,
+                    store_program: STORE_PID,
+                    system_program: system_program::ID,
+                },
+                ti::InitializeTreasuryVaultConfig { index },
+            )],
+            &[keeper],
+        );
+        self.must(
+            "set_treasury_vault_config",
+            &[tix(
+                ta::SetTreasuryVaultConfig {
+                    authority: keeper,
+                    store,
+                    config,
+                    treasury_vault_config: vault_config,
+                    store_program: STORE_PID,
+                },
+                ti::SetTreasuryVaultConfig {},
+            )],
+            &[keeper],
+        );
+        let oracle = key("treasury-oracle");
+        let size = 8 + std::mem::size_of::<gmsol_store::states::Oracle>();
+        let lamports = self.svm.rent.minimum_balance(size);
+        self.svm.set_account(oracle, Account::new(lamports, vec![0; size], STORE_PID));
+        self.must(
+            "initialize_oracle(treasury)",
+            &[six(
+                sa::InitializeOracle { payer: keeper, authority: config, store, oracle, system_program: system_program::ID },
+                si::InitializeOracle {},
+            )],
+            &[keeper],
+        );
+        Treasury { config, receiver, vault_config, oracle }
+    }
+
+    pub fn treasury_set_gt_factor(&mut self, t: &Treasury, authority: Pubkey, factor: u128) -> TxResult {
+        let ix = tix(
+            ta::UpdateConfig { authority, store: self.store, config: t.config, store_program: STORE_PID },
+            ti::SetGtFactor { factor },
+        );
+        self.send(&[ix], &[authority])
+    }
+
+    pub fn treasury_set_buyback_factor(&mut self, t: &Treasury, authority: Pubkey, factor: u128) -> TxResult {
+        let ix = tix(
+            ta::UpdateConfig { authority, store: self.store, config: t.config, store_program: STORE_PID },
+            ti::SetBuybackFactor { factor },
+        );
+        self.send(&[ix], &[authority])
+    }
+
+    pub fn treasury_insert_token(&mut self, t: &Treasury, mint: Pubkey) -> TxResult {
+        let keeper = self.keeper;
+        let ix = tix(
+            ta::InsertTokenToTreasuryVault {
+                authority: keeper,
+                store: self.store,
+                config: t.config,
+                treasury_vault_config: t.vault_config,
+                token: mint,
+                store_program: STORE_PID,
+            },
+            ti::InsertTokenToTreasuryVault {},
+        );
+        self.send(&[ix], &[keeper])
+    }
+
+    pub fn treasury_remove_token(&mut self, t: &Treasury, mint: Pubkey) -> TxResult {
+        let keeper = self.keeper;
+        let ix = tix(
+            ta::RemoveTokenFromTreasuryVault {
+                authority: keeper,
+                store: self.store,
+                config: t.config,
+                treasury_vault_config: t.vault_config,
+                token: mint,
+                store_program: STORE_PID,
+            },
+            ti::RemoveTokenFromTreasuryVault {},
+        );
+        self.send(&[ix], &[keeper])
+    }
+
+    /// `flag` is `"allow_deposit"` or `"allow_withdrawal"`.
+    pub fn treasury_toggle_token_flag(&mut self, t: &Treasury, mint: Pubkey, flag: &str, value: bool) -> TxResult {
+        let keeper = self.keeper;
+        let ix = tix(
+            ta::ToggleTokenFlag {
+                authority: keeper,
+                store: self.store,
+                config: t.config,
+                treasury_vault_config: t.vault_config,
+                token: mint,
+                store_program: STORE_PID,
+            },
+            ti::ToggleTokenFlag { flag: flag.to_string(), value },
+        );
+        self.send(&[ix], &[keeper])
+    }
+
+    /// `prepare_gt_bank` for the given GT exchange vault; returns the bank address.
+    pub fn prepare_gt_bank(&mut self, t: &Treasury, gt_exchange_vault: Pubkey) -> std::result::Result<Pubkey, (TxError, TxMeta)> {
+        let keeper = self.keeper;
+        let gt_bank = self.gt_bank_pda(&t.vault_config, &gt_exchange_vault);
+        let ix = tix(
+            ta::PrepareGtBank {
+                authority: keeper,
+                store: self.store,
+                config: t.config,
+                treasury_vault_config: t.vault_config,
+                gt_exchange_vault,
+                gt_bank,
+                store_program: STORE_PID,
+                system_program: system_program::ID,
+            },
+            ti::PrepareGtBank {},
+        );
+        self.send(&[ix], &[keeper]).map(|_| gt_bank)
+    }
+
+    /// `claim_fees`: market claimable fees → receiver vault (created if needed).
+    pub fn treasury_claim_fees(&mut self, t: &Treasury, market: usize, mint: Pubkey, min_amount: u64) -> TxResult {
+        let keeper = self.keeper;
+        let ix = tix(
+            ta::ClaimFees {
+                authority: keeper,
+                store: self.store,
+                config: t.config,
+                receiver: t.receiver,
+                market: self.markets[market].market,
+                token: mint,
+                vault: self.vault(&mint),
+                receiver_vault: token::ata(&t.receiver, &mint),
+                event_authority: self.event_authority(),
+                store_program: STORE_PID,
+                token_program: spl_token::ID,
+                associated_token_program: associated_token::ID,
+                system_program: system_program::ID,
+            },
+            ti::ClaimFees { min_amount },
+        );
+        self.send(&[ix], &[keeper])
+    }
+
+    /// `deposit_to_treasury_vault` (the instruction that funds the GT bank): the whole receiver-vault
+    /// balance of `mint` is split between the GT bank (`gt_factor`) and the treasury vault.
+    /// The vault token accounts are prepared in the same transaction.
+    pub fn deposit_to_treasury_vault(&mut self, t: &Treasury, gt_exchange_vault: Pubkey, mint: Pubkey) -> TxResult {
+        let keeper = self.keeper;
+        let gt_bank = self.gt_bank_pda(&t.vault_config, &gt_exchange_vault);
+        let ixs = vec![
+            self.prepare_ata_ix(keeper, t.receiver, mint),
+            self.prepare_ata_ix(keeper, t.vault_config, mint),
+            self.prepare_ata_ix(keeper, gt_bank, mint),
+            tix(
+                ta::DepositToTreasuryVault {
+                    authority: keeper,
+                    store: self.store,
+                    config: t.config,
+                    treasury_vault_config: t.vault_config,
+                    receiver: t.receiver,
+                    gt_exchange_vault,
+                    gt_bank,
+                    token: mint,
+                    receiver_vault: token::ata(&t.receiver, &mint),
+                    treasury_vault: token::ata(&t.vault_config, &mint),
+                    gt_bank_vault: token::ata(&gt_bank, &mint),
+                    store_program: STORE_PID,
+                    token_program: spl_token::ID,
+                    associated_token_program: associated_token::ID,
+                },
+                ti::DepositToTreasuryVault {},
+            ),
+        ];
+        self.send(&ixs, &[keeper])
+    }
+
+    pub fn sync_gt_bank(&mut self, t: &Treasury, gt_exchange_vault: Pubkey, mint: Pubkey) -> TxResult {
+        let keeper = self.keeper;
+        let gt_bank = self.gt_bank_pda(&t.vault_config, &gt_exchange_vault);
+        let ixs = vec![
+            self.prepare_ata_ix(keeper, t.vault_config, mint),
+            self.prepare_ata_ix(keeper, gt_bank, mint),
+            tix(
+                ta::SyncGtBank {
+                    authority: keeper,
+                    store: self.store,
+                    config: t.config,
+                    treasury_vault_config: t.vault_config,
+                    gt_bank,
+                    token: mint,
+                    treasury_vault: token::ata(&t.vault_config, &mint),
+                    gt_bank_vault: token::ata(&gt_bank, &mint),
+                    store_program: STORE_PID,
+                    token_program: spl_token::ID,
+                    associated_token_program: associated_token::ID,
+                },
+                ti::SyncGtBankV2 {},
+            ),
+        ];
+        self.send(&ixs, &[keeper])
+    }
+
+    pub fn withdraw_from_treasury_vault(&mut self, t: &Treasury, mint: Pubkey, amount: u64, decimals: u8, target: Pubkey) -> TxResult {
+        let keeper = self.keeper;
+        let ix = tix(
+            ta::WithdrawFromTreasuryVault {
+                authority: keeper,
+                store: self.store,
+                config: t.config,
+                treasury_vault_config: t.vault_config,
+                token: mint,
+                treasury_vault: token::ata(&t.vault_config, &mint),
+                target,
+                store_program: STORE_PID,
+                token_program: spl_token::ID,
+            },
+            ti::WithdrawFromTreasuryVault { amount, decimals },
+        );
+        self.send(&[ix], &[keeper])
+    }
+
+    pub fn confirm_gt_buyback_ix(&self, t: &Treasury, authority: Pubkey, gt_exchange_vault: Pubkey) -> Option<Instruction> {
+        let gt_bank = self.gt_bank_pda(&t.vault_config, &gt_exchange_vault);
+        let bank: GtBank = load(&self.svm, &gt_bank)?;
+        let tvc: TreasuryVaultConfig = load(&self.svm, &t.vault_config)?;
+        let tokens: std::collections::BTreeSet<Pubkey> = bank.tokens().chain(tvc.tokens()).collect();
+        let mut ix = tix(
+            ta::ConfirmGtBuyback {
+                authority,
+                store: self.store,
+                config: t.config,
+                treasury_vault_config: t.vault_config,
+                gt_exchange_vault,
+                gt_bank,
+                token_map: self.token_map,
+                oracle: t.oracle,
+                event_authority: self.event_authority(),
+                store_program: STORE_PID,
+                chainlink_program: None,
+            },
+            ti::ConfirmGtBuyback {},
+        );
+        let tokens: Vec<Pubkey> = tokens.into_iter().collect();
+        ix.accounts.extend(self.feed_metas(&tokens));
+        let treasury_tokens: Vec<Pubkey> = tvc.tokens().collect();
+        for m in &treasury_tokens {
+            ix.accounts.push(AccountMeta::new_readonly(*m, false));
+        }
+        for m in &treasury_tokens {
+            ix.accounts.push(AccountMeta::new_readonly(token::ata(&t.vault_config, m), false));
+        }
+        Some(ix)
+    }
+
+    /// `confirm_gt_buyback`; treasury vault token accounts of all treasury tokens are prepared first.
+    pub fn confirm_gt_buyback(&mut self, t: &Treasury, gt_exchange_vault: Pubkey) -> TxResult {
+        let keeper = self.keeper;
+        let Some(ix) = self.confirm_gt_buyback_ix(t, keeper, gt_exchange_vault) else {
+            return Err((TxError::Runtime("harness: gt bank / treasury vault config not found".into()), TxMeta::default()));
+        };
+        let tvc: TreasuryVaultConfig = load(&self.svm, &t.vault_config).expect("tvc");
+        let mut ixs: Vec<Instruction> = tvc.tokens().map(|m| self.prepare_ata_ix(keeper, t.vault_config, m)).collect();
+        ixs.push(ix);
+        self.send(&ixs, &[keeper])
+    }
+
+    pub fn complete_gt_exchange_ix(&self, t: &Treasury, owner: Pubkey, gt_exchange_vault: Pubkey) -> Option<Instruction> {
+        let gt_bank = self.gt_bank_pda(&t.vault_config, &gt_exchange_vault);
+        let bank: GtBank = load(&self.svm, &gt_bank)?;
+        let tokens: Vec<Pubkey> = bank.tokens().collect();
+        let mut ix = tix(
+            ta::CompleteGtExchange {
+                owner,
+                store: self.store,
+                config: t.config,
+                treasury_vault_config: t.vault_config,
+                gt_exchange_vault,
+                gt_bank,
+                exchange: self.gt_exchange_pda(&gt_exchange_vault, &owner),
+                store_program: STORE_PID,
+                token_program: spl_token::ID,
+                token_2022_program: anchor_spl::token_2022::ID,
+            },
+            ti::CompleteGtExchange {},
+        );
+        for m in &tokens {
+            ix.accounts.push(AccountMeta::new_readonly(*m, false));
+        }
+        for m in &tokens {
+            ix.accounts.push(AccountMeta::new(token::ata(&gt_bank, m), false));
+        }
+        for m in &tokens {
+            ix.accounts.push(AccountMeta::new(token::ata(&owner, m), false));
+        }
+        Some(ix)
+    }
+
+    /// `complete_gt_exchange` signed by `owner`; the owner's token accounts are prepared first.
+    pub fn complete_gt_exchange(&mut self, t: &Treasury, owner: Pubkey, gt_exchange_vault: Pubkey) -> TxResult {
+        let Some(ix) = self.complete_gt_exchange_ix(t, owner, gt_exchange_vault) else {
+            return Err((TxError::Runtime("harness: gt bank not found".into()), TxMeta::default()));
+        };
+        let gt_bank = self.gt_bank_pda(&t.vault_config, &gt_exchange_vault);
+        let bank: GtBank = load(&self.svm, &gt_bank).expect("bank");
+        let mut ixs: Vec<Instruction> = bank.tokens().map(|m| self.prepare_ata_ix(owner, owner, m)).collect();
+        ixs.push(ix);
+        self.send(&ixs, &[owner])
+    }
+
+    pub fn treasury_config(&self, t: &Treasury) -> Option<Config> {
+        load::<Config>(&self.svm, &t.config)
+    }
+
+    pub fn gt_bank(&self, gt_bank: &Pubkey) -> Option<GtBank> {
+        load::<GtBank>(&self.svm, gt_bank)
+    }
+
+    /// `remaining_confirmed_gt_amount` has no public getter: read it from the account bytes
+    /// (8 discriminator + 16 header + 2×32 keys).
+    pub fn gt_bank_remaining_confirmed_gt(&self, gt_bank: &Pubkey) -> Option<u64> {
+        let a = self.svm.get(gt_bank)?;
+        const OFF: usize = 8 + 16 + 32 + 32;
+        if a.owner != TREASURY_PID || a.data.len() < OFF + 8 {
+            return None;
+        }
+        Some(u64::from_le_bytes(a.data[OFF..OFF + 8].try_into().ok()?))
+    }
+}
